@@ -198,6 +198,10 @@ def signature(case, r):
                 worst = 'C19/store-number-cut-out-of-needle'
             else:
                 return 'C19/suggested-rule-does-not-match-its-description'
+    if worst is None and 'quote_d_value' in r:
+        # the quoting function, for ANY text: tally's own expression parser must read the literal back as that text
+        if r['quote_d_value'] != {'value': d} or r.get('needle_literal_value') != {'value': r['needle']}:
+            return 'C19/quoted-literal-does-not-denote-the-text'
     if worst is None and r.get('dup') is not None:
         # the same suggestion appended to a rules text that already has a rule of that name (any letter case)
         # whose match does not cover d: the file must load and d must now match the rule with the suggested match text
@@ -267,12 +271,16 @@ Definition V : variant := %s.
 Definition oeq (a : option string) (b : string) : bool := match a with Some x => String.eqb x b | None => false end.
 Definition code (o : obs) : nat := match o with ObsLoaded true => 0 | ObsLoaded false => 1 | ObsLoadErr => 2 | ObsUnm => 3 end.
 Definition no_re (p t : string) : option bool := None.
-Definition ok (c : string * bool * (string * string * string * string) * nat * (string * nat)) : bool :=
-  let '(d, neg, (pat, nm, needle, rule), k, (duptext, k2)) := c in
+Definition lit_ok (d qd qv : string) : bool :=
+  (String.eqb (quote_fixed d) qd &&
+   match parse_expr ("contains(" ++ qd ++ ")") with POk (ECall f v) => (String.eqb f "contains" && String.eqb v qv)%%bool | _ => false end)%%bool.
+Definition ok (c : string * bool * (string * string * string * string) * nat * (string * nat) * (string * string * nat)) : bool :=
+  let '(d, neg, (pat, nm, needle, rule), k, (duptext, k2), (qd, qv, k3)) := c in
   let tags := if neg then ["refund"] else [] in
   (oeq (suggest_pattern d) pat && oeq (suggest_merchant_name d) nm && oeq (needle_of V d) needle
    && oeq (suggested_rule V d tags) rule && Nat.eqb (code (observe no_re V d tags)) k
-   && (Nat.eqb k2 99 || Nat.eqb (code (observe_text no_re duptext d)) k2))%%bool.
+   && (Nat.eqb k2 99 || Nat.eqb (code (observe_text no_re duptext d)) k2)
+   && (Nat.eqb k3 99 || lit_ok d qd qv))%%bool.
 Fixpoint failing (i : nat) (l : list _) : list nat :=
   match l with [] => [] | c :: r => if ok c then failing (S i) r else i :: failing (S i) r end.
 ''' % ('Fixed' if variant == 'fixed' else 'Orig')
@@ -294,7 +302,9 @@ def model_check(cases, results, variant, name='C19'):
             continue
         rows.append(f"({coq_str(c['d'])}, {'true' if c.get('neg') else 'false'}, ({coq_str(r['pattern'])}, {coq_str(r['name'])}, "
                     f"{coq_str(r['needle'])}, {coq_str(r['rule'])}), {obs_code(r)}, "
-                    + (f"({coq_str(r['dup']['text'])}, {obs_code(r, 'dup')}))" if r.get('dup') else '("", 99))'))
+                    + (f"({coq_str(r['dup']['text'])}, {obs_code(r, 'dup')}), " if r.get('dup') else '("", 99), ')
+                    + (f"({coq_str(r['quote_d'])}, {coq_str(r['quote_d_value'].get('value', chr(1) + 'no value'))}, 0))"
+                       if 'quote_d' in r else '("", "", 99))'))
         idx.append(i)
     bad = []
     CH = 400
@@ -517,6 +527,17 @@ def main(tier):
     if res['hygiene']:
         broken.append({'kind': 'hygiene', 'detail': res['hygiene']})
 
+    # the hypotheses of the generic theorems about the case mapping, swept over every code point on the implementation's interpreter
+    run.cov['obligations'] += 1
+    try:
+        sweep = run_impl(IMPL, {'mode': 'sweep'})
+    except Exception as e:  # noqa
+        sweep = {'bad': [f'sweep failed: {e}'[:200]]}
+    if sweep['bad']:
+        broken.append({'kind': 'broken-obligation', 'obligation': 'case-map hypotheses of c19_generic_needle_matches (H_first, H_empty) on str.upper',
+                       'detail': sweep['bad']})
+    else:
+        run.cov['discharged'] += 1
     n, maxlen = (1300, 2) if tier == "quick" else (12000, 3)
     cases, discarded = gen_cases(run.seed, n, maxlen)
     out = run_cases_impl(cases)
@@ -632,7 +653,7 @@ def main(tier):
         'cli_loops': [{k: o.get(k) for k in ('descriptions', 'preexisting_same_named_rules', 'unknown_before', 'unknown_after', 'still_unknown', 'error')} for o in loops],
         'cli_loops_with_preexisting_same_named_rules': sum(1 for o in loops if o.get('preexisting_same_named_rules')),
         'reported': [{'signature': s, 'shrunk': d, 'new': new} for s, d, new in reported],
-        'extraction': 'ok' if info else xerr, 'broken': broken, 'phase_seconds': timings})
+        'case_map_sweep': sweep, 'extraction': 'ok' if info else xerr, 'broken': broken, 'phase_seconds': timings})
     run.finish()
 
 
